@@ -161,3 +161,11 @@ package gitindex
 //@ func gitindex.indexGitRepo
 //@   guard call:NewBuilder by !field:DryRun
 //@   guard call:Finish by !field:DryRun
+
+// C12: the deferred clean-up of indexGitRepo. Whatever made the run fail, the
+// builder knows about it before Finish runs - so a run that could not hand over
+// all documents installs nothing.
+//@ func gitindex.indexGitRepo$1
+//@   may_panic
+//@   requires builder != nil && !effectFailed
+//@   assert at call:Finish: retErr == nil || builder.buildError != nil
